@@ -19,7 +19,7 @@ def sliceTok (l : List Nat) : String := if l.isEmpty then "e" else String.interc
 
 def c02 (fn : String) (r : Req) : Option (String × String) :=
   if !(["rolling_apply", "rolling_apply_idx", "rolling2_apply", "rolling2_apply_idx", "rolling_custom",
-        "rolling2_custom"].contains fn) || (r.get "n").isNone then none else
+        "rolling2_custom", "rolling_custom_iter"].contains fn) || (r.get "n").isNone then none else
   let n := r.nat "n"
   let w := r.nat "w" 1
   let sh := r.shape
@@ -44,6 +44,9 @@ def c02 (fn : String) (r : Req) : Option (String × String) :=
   | "rolling2_apply_idx" =>
     fin (maskLast w n ((idx2Calls sh xs ys w).map fun (s, e, v) => (showOptNat s, s!"{e}:{v.1}.{v.2}")))
         (maskLast w n (specIdx.map fun (s, i) => (showOptNat s, s!"{i}:{i + 10}.{i + 50}")))
+  | "rolling_custom_iter" =>
+    some (showList sliceTok (customCalls .iter xs w) ++ ";" ++ outOf (writes .iter n w) n,
+          showList sliceTok ((List.range n).map fun i => window xs i w) ++ ";" ++ sout)
   | "rolling_custom" =>
     some (showList sliceTok (customCalls sh xs w) ++ ";" ++ out,
           showList sliceTok ((List.range n).map fun i => window xs i w) ++ ";" ++ sout)
